@@ -105,18 +105,24 @@ class SStr:
 
 
 def decode_sbytes(b, encoding="utf-8", errors="strict"):
-    out = []
-    for x in b.v:
-        if isinstance(x, SInt) and x.hi > 127:
-            if ENGINE.branch(x.t > 127):
-                return b.concrete().decode(encoding, errors)
-            x = SInt(x.t, x.lo, 127)
-        elif not isinstance(x, SInt) and x > 127:
-            return b.concrete().decode(encoding, errors)
-        out.append(x)
-    if not any(isinstance(x, SInt) for x in out):
-        return bytes(out).decode(encoding, errors)
-    return SStr(out)
+    """ASCII bytes decode to the same code points.  If some byte may be >= 128 the utf-8 outcome depends on
+    the byte pattern: both outcomes are explored - UnicodeDecodeError, or *some* string (approximated by the
+    bytes as code points; its content is not to be relied on)."""
+    highs = [x.t > 127 for x in b.v if isinstance(x, SInt) and x.hi > 127]
+    conc_high = any((not isinstance(x, SInt)) and x > 127 for x in b.v)
+    if not highs and not conc_high:
+        out = [SInt(x.t, x.lo, min(x.hi, 127)) if isinstance(x, SInt) else x for x in b.v]
+        if not any(isinstance(x, SInt) for x in out):
+            return bytes(out).decode(encoding, errors)
+        return SStr(out)
+    if not any(isinstance(x, SInt) for x in b.v):
+        return bytes(b.v).decode(encoding, errors)
+    if conc_high or ENGINE.branch(z3.Or(*highs) if len(highs) > 1 else highs[0]):
+        ENGINE._fresh += 1
+        if ENGINE.branch(z3.Bool("_utf8_decodes%d" % ENGINE._fresh)):
+            return SStr(list(b.v))
+        raise UnicodeDecodeError(encoding, b"", 0, 1, "symbolic non-ASCII bytes (modelled outcome)")
+    return SStr([SInt(x.t, x.lo, 127) if isinstance(x, SInt) and x.hi > 127 else x for x in b.v])
 
 
 class P_str(metaclass=_Meta):
